@@ -8,9 +8,15 @@
   models what the code does, not what it should do.
 
   Conventions
-  * tx ids, shard ids, keys, values, lock handles, times are `Nat` (the harness renames the
-    real u64 tx ids / lock handles to dense integers in order of first appearance; values are
-    the `data` bytes of a `Transaction::Put`).
+  * tx ids, shard ids, keys, lock handles, times are `Nat` (the harness renames the real u64 tx
+    ids / lock handles to dense integers in order of first appearance).
+  * keys are the numbers of key STRINGS under a naming convention shared with the harness: the
+    client-visible name `k<n>` is `n` (`n < 10000`), and the strings that `Transaction::storage_key`
+    / `apply_operations` build from a name are `embK` = `"emb:" ++ name`, `nodeK`, `tableK`, `rowK`,
+    `edgeK` below.  A client key may itself be such a string (`Put { key: "emb:k1" }` is
+    `Op.put (embK 1) v`): the key space is ONE flat string space, as in the code.
+  * values (`Val`) are the `TensorData` shapes that `apply_operations` writes: which field carries
+    the payload (`data` bytes, `vector`, `_label`, `values`, `values`+`row_id`, edge fields).
   * a shard store is an association list read through `sget` (first match wins); `sput` conses,
     `sdel` filters.  Two stores are "the same data" when `sget` agrees on every key.
   * the clock is explicit (`now`); `is_timed_out` = `now - started_at > timeout_ms`,
@@ -19,8 +25,8 @@
     shards (`nonOrth`), supplied by the harness from the real `DeltaVector::cosine_similarity`;
     the key-overlap test that follows it in the code is modelled exactly.
   Not modelled: the coordinator-local `handle_prepare` lock manager (empty throughout when real
-  `TxParticipant`s do the locking), WAL logging (C13), `Transaction` kinds other than Put/Delete,
-  abort-ack tracking (`track_abort`, `get_retry_aborts`: bookkeeping after the decision).
+  `TxParticipant`s do the locking), WAL logging (C13), the branch of `TxParticipant::commit` taken
+  when `apply_operations` fails (`TensorStore::put` never returns an error), abort-ack tracking (`track_abort`, `get_retry_aborts`: bookkeeping after the decision).
 -/
 namespace Neumann.TwoPC
 
@@ -46,37 +52,108 @@ def Vote.isConflict : Vote → Bool
   | .conflict _ => true
   | _ => false
 
+/-- `TensorData` as written by `apply_operations`: which field carries the payload. -/
+inductive Val
+  | data (v : Nat)        -- `{ data: Bytes[v] }`                       (Put, CompareAndSwap, preloaded data)
+  | vec (v : Nat)         -- `{ vector: [v] }`                          (Embed)
+  | node (label : Nat)    -- `{ _id, _type: "node", _label }`           (NodeCreate)
+  | edge                  -- `{ _from, _to, _type }` (all three are in the key) (EdgeCreate)
+  | rows (v : Nat)        -- `{ values: Bytes[v] }`                     (TableInsert)
+  | row (r v : Nat)       -- `{ values: Bytes[v], row_id: r }`          (TableUpdate)
+  deriving DecidableEq, Repr
+
+instance (n : Nat) : OfNat Val n := ⟨.data n⟩
+
+/-- `block::Transaction` (all ten kinds). -/
 inductive Op
   | put (k v : Nat)
   | del (k : Nat)
+  | embed (k v : Nat)
+  | nodeCreate (k label : Nat)
+  | nodeDelete (k : Nat)
+  | edgeCreate (src dst ty : Nat)
+  | tableInsert (t v : Nat)
+  | tableUpdate (t r v : Nat)
+  | tableDelete (t r : Nat)
+  | cas (k : Nat) (expected : Option Nat) (v : Nat)   -- `expected_data` = `[]` (none) or one byte
   deriving DecidableEq, Repr
 
+/-! the strings built from a name (numbering shared with the harness) -/
+def embK (k : Nat) : Nat := 10000 + k                       -- "emb:{key}"
+def nodeK (k : Nat) : Nat := 20000 + k                      -- "node:{key}"
+def tableK (t : Nat) : Nat := 30000 + t                     -- "table:{table}"
+def rowK (t r : Nat) : Nat := 40000 + 100 * t + r           -- "table:{table}:row:{row_id}"
+def edgeK (f t ty : Nat) : Nat := 50000 + 100 * f + 10 * t + ty  -- "edge:{from}:{to}:{edge_type}"
+
+/-- `Transaction::affected_key` — the LOGICAL key; `TxParticipant::prepare` locks these. -/
 def Op.key : Op → Nat
-  | .put k _ => k
-  | .del k => k
+  | .put k _ | .del k | .embed k _ | .nodeCreate k _ | .nodeDelete k | .cas k _ _ => k
+  | .edgeCreate f _ _ => f
+  | .tableInsert t _ | .tableUpdate t _ _ | .tableDelete t _ => t
+
+/-- `Transaction::storage_key` — `TxParticipant::prepare` captures the undo image of THIS key. -/
+def Op.undoKey : Op → Nat
+  | .put k _ | .del k | .cas k _ _ => k
+  | .embed k _ => embK k
+  | .nodeCreate k _ | .nodeDelete k => nodeK k
+  | .edgeCreate f t ty => edgeK f t ty
+  | .tableInsert t _ | .tableUpdate t _ _ | .tableDelete t _ => tableK t
+
+/-- the key `apply_operations` writes or deletes (differs from `storage_key` for the two row kinds). -/
+def Op.writeKey : Op → Nat
+  | .tableUpdate t r _ | .tableDelete t r => rowK t r
+  | op => op.undoKey
 
 /-! ## shard store -/
 
-abbrev Store := List (Nat × Nat)
+abbrev Store := List (Nat × Val)
 
-def sget : Store → Nat → Option Nat
+def sget : Store → Nat → Option Val
   | [], _ => none
   | (a, b) :: s, k => if a = k then some b else sget s k
 
-def sput (s : Store) (k v : Nat) : Store := (k, v) :: s
+def sput (s : Store) (k : Nat) (v : Val) : Store := (k, v) :: s
 
 def sdel (s : Store) (k : Nat) : Store := s.filter (fun e => e.1 != k)
 
-/-- `apply_operations`: Put overwrites, Delete is idempotent. -/
-def applyOp (s : Store) : Op → Store
-  | .put k v => sput s k v
-  | .del k => sdel s k
+/-- the bytes `CompareAndSwap` compares with `expected_data`: the `data` field of the current value,
+    `[]` when the key is absent or its value has no `data` bytes -/
+def dataOf : Option Val → Option Nat
+  | some (.data d) => some d
+  | _ => none
+
+/-- what one arm of `apply_operations` does at the operation's `writeKey` -/
+inductive Write
+  | set (v : Val)
+  | remove
+  | skip
+  deriving DecidableEq, Repr
+
+/-- `apply_operations`, one arm per `Transaction` kind: puts overwrite, deletes are idempotent,
+    `CompareAndSwap` writes only when the current `data` bytes equal `expected_data`. -/
+def Op.write (s : Store) : Op → Write
+  | .put _ v => .set (.data v)
+  | .del _ => .remove
+  | .embed _ v => .set (.vec v)
+  | .nodeCreate _ l => .set (.node l)
+  | .nodeDelete _ => .remove
+  | .edgeCreate _ _ _ => .set .edge
+  | .tableInsert _ v => .set (.rows v)
+  | .tableUpdate _ r v => .set (.row r v)
+  | .tableDelete _ _ => .remove
+  | .cas k e v => if dataOf (sget s k) = e then .set (.data v) else .skip
+
+def applyOp (s : Store) (op : Op) : Store :=
+  match op.write s with
+  | .set v => sput s op.writeKey v
+  | .remove => sdel s op.writeKey
+  | .skip => s
 
 def applyOps (s : Store) (ops : List Op) : Store := ops.foldl applyOp s
 
 /-- `UndoEntry`. -/
 inductive Undo
-  | restore (k v : Nat)
+  | restore (k : Nat) (v : Val)
   | delete (k : Nat)
   deriving DecidableEq, Repr
 
@@ -190,14 +267,14 @@ def findPrepared : List PreparedTx → Nat → Option PreparedTx
 def removePrepared (ps : List PreparedTx) (tx : Nat) : List PreparedTx :=
   ps.filter (fun p => p.tx != tx)
 
-/-- `TxParticipant::prepare`: lock all keys or answer `Conflict`; on success capture the undo
-    image of every op's key and (re)insert the prepared entry. -/
+/-- `TxParticipant::prepare`: lock all LOGICAL keys (`affected_key`) or answer `Conflict`; on success
+    capture the undo image of every op's `storage_key` and (re)insert the prepared entry. -/
 def Participant.prepare (p : Participant) (now handle tx : Nat) (ops : List Op) : Participant × Vote :=
   let keys := ops.map Op.key
   match p.locks.tryLock now handle tx keys with
   | .error c => (p, .conflict c)
   | .ok lt =>
-    let undo := keys.map (capture p.store)
+    let undo := ops.map (fun op => capture p.store op.undoKey)
     ({ p with locks := lt,
               prepared := ⟨tx, handle, ops, now, undo⟩ :: removePrepared p.prepared tx },
      .yes handle keys)
@@ -400,6 +477,7 @@ structure Sys where
   discarded : List (Nat × Nat)   -- (shard, tx): the participant discarded a prepared (yes-voted) tx
   reasons : List (Nat × AbortReason) -- reason of every queued abort broadcast (observability only)
   appliedOps : List (Nat × Nat × List Op) -- (shard, tx, the operations applied), in application order
+  cast : List (Nat × Nat × Bool)  -- (tx, shard, yes?): every answer a participant's `prepare` produced
   deriving Repr
 
 inductive Ev
@@ -409,6 +487,9 @@ inductive Ev
   | tick (d : Nat)
   | coordCommit (tx : Nat)
   | coordAbort (tx : Nat)
+  /-- the network hands the coordinator a vote that no participant's `prepare` produced: a mis-tagged /
+      mis-routed / forged prepare response (it joins the pool and is delivered like any message) -/
+  | forge (tx sh : Nat) (v : Vote)
   -- outside C03's event alphabet:
   | cleanupStale (sh timeout : Nat)
   | recover (sh timeout : Nat)
@@ -445,7 +526,8 @@ def Sys.deliverMsg (s : Sys) : Msg → Sys × Res
     | some p =>
       let r := p.prepare s.now s.nextHandle tx ops
       ({ s with parts := s.parts.set sh r.1, msgs := s.msgs ++ [Msg.vote tx sh r.2],
-                nextHandle := if r.2.isYes then s.nextHandle + 1 else s.nextHandle }, .vote r.2)
+                nextHandle := if r.2.isYes then s.nextHandle + 1 else s.nextHandle,
+                cast := s.cast ++ [(tx, sh, r.2.isYes)] }, .vote r.2)
   | .vote tx sh v =>
     match s.coord.recordVote tx sh v (nonOrthOf s.specs tx) with
     | .error e => (s, .verr e)
@@ -499,6 +581,7 @@ def Sys.stepR (s : Sys) : Ev → Sys × Res
                 decided := s.decided ++ [(tx, false)] }, .none)
     | _, .error e => (s, .cerr e)
     | none, .ok _ => (s, .cerr .notFound)
+  | .forge tx sh v => ({ s with msgs := s.msgs ++ [Msg.vote tx sh v] }, .none)
   | .cleanupStale sh timeout =>
     match s.parts[sh]? with
     | none => (s, .noshard)
@@ -516,11 +599,41 @@ def Sys.step (s : Sys) (e : Ev) : Sys := (s.stepR e).1
 
 def Sys.run (s : Sys) (es : List Ev) : Sys := es.foldl Sys.step s
 
+/-- every operation a client ever asked for (all transactions, all shards) -/
+def allOps (specs : List TxSpec) : List Op := specs.flatMap (fun sp => sp.ops.flatMap (·.2))
+
+/-- The LOCK DISCIPLINE of a workload: whenever one operation writes the storage key whose undo image
+    another operation captures, the two are serialised by the same logical (lock) key.  It holds by
+    construction for Put / Delete / CompareAndSwap workloads (`key = undoKey = writeKey`) and for the
+    prefixed kinds as long as no client addresses a prefixed storage key (`"emb:x"`, `"table:t"`,
+    `"table:t:row:r"`, …) directly while another transaction reaches it through `Embed`, `Table*`, ….
+    The code locks `affected_key()` but captures / restores `storage_key()`: it does NOT enforce this. -/
+def lockDiscipline (ops : List Op) : Bool :=
+  ops.all (fun a => ops.all (fun b => a.writeKey != b.undoKey || a.key == b.key))
+
+/-- Put / Delete / CompareAndSwap: the kinds whose logical key IS the storage key -/
+def Op.isPlain : Op → Bool
+  | .put _ _ | .del _ | .cas _ _ _ => true
+  | _ => false
+
+/-- the shard `sh` is one of the participants the client named for the (begun) transaction `tx` -/
+def isParticipant (specs : List TxSpec) (tx sh : Nat) : Bool :=
+  match findSpec specs tx with
+  | some sp => sp.shards.contains sh
+  | none => false
+
+def knownTx (specs : List TxSpec) (tx : Nat) : Bool := (findSpec specs tx).isSome
+
 /-- C03's event alphabet: message delivery in any order / multiplicity (loss = never delivered),
-    coordinator timeout sweeps, coordinator commit / abort calls, new transactions, and the passage
-    of time as long as it does not EXPIRE a participant lock.  Participant-side unilateral
-    `cleanup_stale` / `recover` and participant lock expiry are outside it. -/
+    coordinator timeout sweeps, coordinator commit / abort calls, new transactions whose operations
+    keep the workload's lock discipline, the passage of time as long as it does not EXPIRE a
+    participant lock, and forged / mis-tagged votes of every kind EXCEPT a YES in the name of a real
+    participant (NO and CONFLICT votes for any transaction and shard — also transactions not begun yet —,
+    YES votes tagged with a shard that is not a participant of an existing transaction).
+    Participant-side unilateral `cleanup_stale` / `recover` and participant lock expiry are outside it. -/
 def Sys.inAlphabet (s : Sys) : Ev → Bool
+  | .begin _ ops _ => lockDiscipline (allOps s.specs ++ ops.flatMap (·.2))
+  | .forge tx sh v => !v.isYes || (knownTx s.specs tx && !isParticipant s.specs tx sh)
   | .tick d => s.parts.all (fun p => p.locks.locks.all (fun l => !l.expired (s.now + d)))
   | .cleanupStale _ _ => false
   | .recover _ _ => false
@@ -531,7 +644,7 @@ def Sys.init (stores : List Store) (txTimeout maxConcurrent lockTimeout : Nat) :
     coord := ⟨[], [], maxConcurrent, txTimeout, 0⟩,
     parts := stores.map (fun st => ⟨[], ⟨[], [], lockTimeout⟩, st⟩),
     msgs := [], specs := [], nextHandle := 0, decided := [], applied := [], discarded := [],
-    reasons := [], appliedOps := [] }
+    reasons := [], appliedOps := [], cast := [] }
 
 /-- states reachable through events of C03's alphabet -/
 inductive Reach (s0 : Sys) : Sys → Prop
@@ -598,7 +711,7 @@ def Participant.prepareNoConflictCheckForKnownTx (p : Participant) (now handle t
   match p.locks.tryLockNoConflictCheckForKnownTx now handle tx keys with
   | .error c => (p, .conflict c)
   | .ok lt =>
-    let undo := keys.map (capture p.store)
+    let undo := ops.map (fun op => capture p.store op.undoKey)
     ({ p with locks := lt,
               prepared := ⟨tx, handle, ops, now, undo⟩ :: removePrepared p.prepared tx },
      .yes handle keys)
